@@ -163,6 +163,53 @@ def _call(thunk):
         _HIST.update(phase=None, slots=[], pos=0)
 
 
+def warm_process():
+    """Before anything is judged, the process has already built things of other sizes: variable groups of
+    every kind at non-zero offsets, binary mappings of many widths, larger graphs and a few larger family
+    instances in both classes - nothing a generator builds later may depend on what the process did before."""
+    import cnfgen
+    from cnfgen.formula.opb import OPB
+    for cls in (cnfgen.CNF, OPB):
+        for off in (7, 3):
+            for n in range(2, 21):
+                W = cls()
+                W.update_variable_number(off)
+                W.new_combinations(n, 2)
+                W.new_permutations(n, 2)
+                if n <= 6:
+                    W.new_combinations(n, 3)
+                    W.new_words(n, 2)
+                W.new_mapping(n, 3)
+                W.new_block(n, 2)
+                f = W.new_binary_mapping(3, n + 17)
+                W.force_complete_mapping(f)
+                W.force_injective_mapping(f)
+                g = W.new_binary_mapping(2, n)
+                W.force_complete_mapping(g)
+        try:
+            G9 = _new("simple", 9, 0)
+            for u in range(1, 9):
+                G9.add_edge(u, u + 1)
+            G9.add_edge(1, 9)
+            B = _new("bipartite", 9, 8)
+            for u in range(1, 10):
+                for v in (1 + u % 8, 1 + (u + 3) % 8):
+                    B.add_edge(u, v)
+            cnfgen.BinaryCliqueFormula(G9, 3, formula_class=cls)
+            cnfgen.BinaryPigeonholePrinciple(9, 11, formula_class=cls)
+            cnfgen.CliqueFormula(G9, 3, formula_class=cls)
+            cnfgen.GraphColoringFormula(G9, 3, formula_class=cls)
+            cnfgen.DominatingSet(G9, 3, formula_class=cls)
+            cnfgen.TseitinFormula(G9, formula_class=cls)
+            cnfgen.GraphPigeonholePrinciple(B, formula_class=cls)
+            cnfgen.SubsetCardinalityFormula(B, formula_class=cls)
+            cnfgen.CPLSFormula(3, 8, 4, formula_class=cls)
+            cnfgen.OrderingPrinciple(7, formula_class=cls)
+            cnfgen.RelativizedPigeonholePrinciple(4, 5, 4, formula_class=cls)
+        except Exception as e:      # a generator that cannot build a plain instance will show in the check itself
+            pass
+
+
 def gid(edges):
     return "e" + "_".join("%d.%d" % (u, v) for u, v in edges) if edges else "e-"
 
